@@ -106,9 +106,7 @@ func runC04(r *ev.Run, data json.RawMessage) error {
 			if _, _, ok := jsonCodec(t); !ok {
 				continue
 			}
-			if OptKind(t) != "" {
-				continue // wrappers are not JSON values on their own (unset encodes to nothing); exercised inside structs
-			}
+
 			if patternMapName.MatchString(t.Name()) {
 				// patternProperties maps: keys must match a pattern the Go type does not reveal
 				r.Count("pattern_map_types_skipped", 1)
@@ -140,6 +138,20 @@ func c04Type(r *ev.Run, pkg *Package, cfg C04Pkg, t reflect.Type, idx int) {
 		if !ok {
 			r.Count("values_rejected_by_own_validate", 1)
 			continue
+		}
+		if k := OptKind(t); k == "opt" || k == "optnil" {
+			// a wrapper is a JSON value only when set (unset encodes to nothing): force the set states.
+			// The format matrix (format_gen.json) reaches its format-specific codecs only through wrappers.
+			if !v.FieldByName("Set").Bool() {
+				nv := reflect.New(t).Elem()
+				nv.Set(v)
+				nv.FieldByName("Set").SetBool(true)
+				nv.FieldByName("Value").Set(b.Value(nv.FieldByName("Value").Type(), 1))
+				if ValidateValue(nv) != nil {
+					continue
+				}
+				v = nv
+			}
 		}
 		built++
 		s0 := SnapValue(v)
